@@ -17,8 +17,8 @@ def run_part(c, tier):
         raise V.ToolError("oracle self-test failed: Buggy=TRUE does not violate NeverADifferentBlock (%s)" % res["violated"])
     # exhaustive model checking; the emitting run uses one worker (several workers interleave printed lines)
     out = {"selftest_tx_root_only_rejected_by": res["violated"]}
-    cfg = "MC_CompactBlock_3.cfg" if tier == "quick" else "MC_CompactBlock_4.cfg"
-    res = c16.enumerate_recon(c, cfg, 1700) if False else V.tlc(c16.PID, "MC_CompactBlock", cfg, workers=1, timeout=1700, xmx="8g")
+    cfg = "MC_CompactBlock_4.cfg"          # n <= 4 in both tiers (101 k states, 34 k terminal cases, seconds)
+    res = V.tlc(c16.PID, "MC_CompactBlock", cfg, workers=1, timeout=1700, xmx="8g")
     if res["violated"]:
         c.violation("model/" + res["violated"], "CompactBlock.tla violates %s (%s)" % (res["violated"], cfg),
                     {"kind": "model", "module": "MC_CompactBlock", "cfg": cfg, "tlc_tail": res["out"][-3000:]})
@@ -28,7 +28,7 @@ def run_part(c, tier):
     cases = V.tlc_json_lines(res["out"], "CASE")
     for i, k in enumerate(cases):
         k["id"] = i
-    if len(cases) < 5000:
+    if len(cases) < 30000:
         raise V.ToolError("too few reconstruction cases exported: %d" % len(cases))
     summ, _ = c16.replay_recon(c, cases)
     t = summ["tally"]
